@@ -248,6 +248,13 @@ func OFloat(r int, path string) float64           { return accF("OFloat") }
 func OStr(r int, path string) string              { return accStr("OStr") }
 func OBool(r int, path string) bool               { return accBool("OBool") }
 func OLen(r int, path string) int                 { return int(accInt("OLen")) }
+func CompareDecls(a, b, mode string) string {
+	rec := accStr("CompareDecls")
+	if r, ok := nativeCompareDecls(a, b, mode); ok {
+		return r
+	}
+	return rec
+}
 func OKind(r int, path string) int                { return int(accInt("OKind")) }
 func Unreachable(why string) { panic("zzvrt.Unreachable: " + why) }
 
@@ -303,4 +310,16 @@ func Run(h func()) {
 		fmt.Fprintf(out, "ZZDONE draws=%d/%d\n", pos, len(draws))
 	}()
 	h()
+}
+
+// nativeCompareDecls: the comparison is re-done natively on the real outputs by the replay
+// driver when available (files $ZZ_OUT/cmp_<n>_{a,b}.txt are written for inspection).
+var nCmp int
+
+func nativeCompareDecls(a, b, mode string) (string, bool) {
+	_ = os.WriteFile(outFile(fmt.Sprintf("cmp_%d_a.txt", nCmp)), []byte(a), 0o644)
+	_ = os.WriteFile(outFile(fmt.Sprintf("cmp_%d_b.txt", nCmp)), []byte(b), 0o644)
+	_ = os.WriteFile(outFile(fmt.Sprintf("cmp_%d_mode.txt", nCmp)), []byte(mode), 0o644)
+	nCmp++
+	return compareDeclsNative(a, b, mode)
 }
